@@ -52,6 +52,12 @@ def main():
     classes, exs, runs, ans, crashes, skipped = sc.run_in_chunks(ck, exe, model, lps, cfgs, hists=hists)
     sc.driver_verdicts(ck, lps, cfgs, runs, ck.hruns, ans, skipped, hists)
     if not ck.args.replay:
+        # presolve-rich LPs (generator of C08): only their driver traces are used here, their answers are C08's business
+        import C08 as c08gen
+        plps = [c08gen.gen_presolve_lp(r, 10)[0] for _ in range(60 if ck.tier == "quick" else 600)]
+        sc.driver_only(ck, exe, model, plps, {k: [{}, {"scaler": r.choice([1, 3, 5]), "persistentscaling": 1}, {"ensureray": 1},
+                                                  lpgen.rand_config(r, {"ensureray": [0, 1]})] for k in range(len(plps))})
+    if not ck.args.replay:
         sc.gate_check(ck, exe, model, lps, r, 60 if ck.tier == "quick" else 600)
     for (k, c, rc) in crashes:
         if isinstance(c, str):
